@@ -3,6 +3,7 @@
 // points, two statements share a file exactly when no scheduled rotation point lies between them.
 #include "quill/sinks/RotatingFileSink.h"
 #include "enum.h"
+#include <ctime>
 #include <algorithm>
 #include <filesystem>
 #include <fstream>
@@ -73,10 +74,41 @@ int main()
       check(o1, got == expect, in + " files=" + std::to_string(got.size()) + " expected=" + std::to_string(expect.size()));
     });
   }
+  // ---- local time across daylight saving switches: daily at HH:MM in the sink's (= the process') time zone
+  Obl o3{"time_rotation.daily_local_time_across_dst", "C15", "", "daily at HH:MM in local time: the rotation points are HH:MM of every calendar day, also on and after the days on which daylight saving starts or ends (23 / 25 hour days, Lord Howe: 30 minutes)"};
+  struct Dst { char const* tz; int y, m, d; };   // the day BEFORE the switch
+  Dst const switches[5] = {{"America/New_York", 2023, 11, 4}, {"America/New_York", 2023, 3, 11}, {"Europe/Berlin", 2023, 10, 28}, {"Europe/Berlin", 2023, 3, 25}, {"Australia/Lord_Howe", 2023, 4, 1}};
+  for (Dst const& sw : switches) for (char const* hhmm : {"00:30", "03:00", "12:00", "23:15"})
+  {
+    setenv("TZ", sw.tz, 1); tzset();
+    int const H = atoi(hhmm), M = atoi(hhmm + 3);
+    auto point = [&](int day_offset) { tm t{}; t.tm_year = sw.y - 1900; t.tm_mon = sw.m - 1; t.tm_mday = sw.d + day_offset; t.tm_hour = H; t.tm_min = M; t.tm_isdst = -1; return (int64_t)mktime(&t); };
+    std::vector<int64_t> P; for (int d = 0; d < 4; ++d) P.push_back(point(d));
+    int64_t const S = P[0] - 6 * 3600;                       // the sink is opened six hours before the first point
+    std::vector<int64_t> at; for (int64_t p : P) { at.push_back(p - 1500); at.push_back(p + 1500); }
+    fs::path dir = fs::path(base) / "d"; fs::remove_all(dir); fs::create_directories(dir);
+    std::vector<std::string> stmts;
+    {
+      quill::RotatingFileSinkConfig cfg; cfg.set_open_mode('w'); cfg.set_timezone(quill::Timezone::LocalTime); cfg.set_rotation_time_daily(hhmm);
+      quill::RotatingFileSink sink(dir / "r.log", cfg, quill::FileEventNotifier{}, std::chrono::system_clock::time_point{std::chrono::seconds{S}});
+      for (size_t k = 0; k < at.size(); ++k) { std::string st = "<" + std::to_string(k) + ">\n"; stmts.push_back(st); sink.write_log(nullptr, (uint64_t)at[k] * 1000000000ull, "", "", std::string{}, "", quill::LogLevel::Info, "", "", nullptr, "", st); }
+      sink.flush_sink();
+    }
+    std::vector<std::pair<long, fs::path>> files;
+    for (auto const& e : fs::directory_iterator(dir)) { std::string name = e.path().filename().string(); long idx = name == "r.log" ? 0 : atol(name.substr(2, name.size() - 6).c_str()); files.push_back({idx, e.path()}); }
+    std::sort(files.begin(), files.end(), [](auto const& a, auto const& b) { return a.first > b.first; });
+    std::vector<std::string> got; for (auto const& f : files) { std::string c = slurp(f.second); if (!c.empty()) got.push_back(c); }
+    // expected: <0> | <1><2> | <3><4> | <5><6> | <7>   (a new file at every HH:MM)
+    std::vector<std::string> expect = {stmts[0], stmts[1] + stmts[2], stmts[3] + stmts[4], stmts[5] + stmts[6], stmts[7]};
+    ++n;
+    std::string shown; for (auto const& g : got) { for (char c : g) shown += c == '\n' ? ' ' : c; shown += "| "; }
+    check(o3, got == expect, std::string(sw.tz) + " switch after " + std::to_string(sw.y) + "-" + std::to_string(sw.m) + "-" + std::to_string(sw.d) + " daily " + hhmm + " files: " + shown);
+  }
+  setenv("TZ", "UTC", 1); tzset();
   fs::remove_all(base);
-  printf("SPACE 4 start instants x {minutely/1, minutely/7, hourly/1, daily 02:00} (GMT) x every increasing sequence of <= %d statement instants from an 8-point grid around the rotation points (incl. 11 periods later), on real files\n", LEN);
+  printf("SPACE 4 start instants x {minutely/1, minutely/7, hourly/1, daily 02:00} (GMT) x every increasing sequence of <= %d statement instants from an 8-point grid around the rotation points (incl. 11 periods later); plus daily rotation in LOCAL time at 4 times of day across 5 daylight saving switches in 3 zones; on real files\n", LEN);
   printf("DISTINCT %ld\n", n);
   printf("SAMPLE daily 02:00 start=39570s instants=-1,0,86400\n");
-  report(o1); report(o2);
-  return (o1.failed || o2.failed) ? 1 : 0;
+  report(o1); report(o2); report(o3);
+  return (o1.failed || o2.failed || o3.failed) ? 1 : 0;
 }
